@@ -2,5 +2,8 @@
 use serde_json::{json, Value};
 
 pub fn handle_ext2(kind: &str, req: &Value) -> Result<Value, String> {
-  Err(format!("unknown request kind {}", kind))
+  match kind {
+    "loop" => crate::remapping_loop::verif_replay::run_loop_script(req),
+    _ => Err(format!("unknown request kind {}", kind)),
+  }
 }
